@@ -44,6 +44,7 @@ impl Actor for P {
             None | Some(0) => Ok(false),
             Some(1) => { tokio::task::yield_now().await; Ok(true) }
             Some(2) => { tokio::time::sleep(Duration::from_millis(15)).await; Ok(true) }
+            Some(3) => { std::future::pending::<()>().await; Ok(true) }   // idle processing stays enabled, parked forever
             _ => Err("run-failed".into()),
         }
     }
@@ -138,7 +139,7 @@ pub fn run_scenario(sc: &Scenario) -> Verdict {
     let hstart = |id: u32| evs.iter().find(|(_, _, e)| matches!(e, Ev::HStart(x) if *x == id)).map(|(s, _, _)| *s);
     let stop_start = evs.iter().find(|(_, _, e)| matches!(e, Ev::StopStart(_))).map(|(s, _, e)| (*s, matches!(e, Ev::StopStart(true))));
     let any_kill = recs.iter().any(|r| matches!(r.op, Op::Kill | Op::ErasedKill) && !matches!(r.res, Res::NoRef));
-    let run_err = sc.run.iter().any(|x| *x < 0 || *x > 2);
+    let run_err = sc.run.iter().any(|x| *x < 0 || *x > 3);
     // O1 at most once, only sent ids
     for r in &recs { let n = evs.iter().filter(|(_, _, e)| matches!(e, Ev::HStart(x) if *x == r.id)).count(); if n > 1 { v.push(format!("O1 message {} handled {} times", r.id, n)); } }
     for (_, _, e) in &evs { if let Ev::HStart(x) = e { if !recs.iter().any(|r| r.id == *x) { v.push(format!("O1 handler ran for unknown message {x}")); } } }
@@ -237,7 +238,7 @@ pub fn run_scenario(sc: &Scenario) -> Verdict {
         if dl1 - dl0 != failed { v.push(format!("O9 {} dead letters recorded for {} failed deliveries", dl1 - dl0, failed)); }
     }
     // O12 on_run: Ok(false) disables it for good
-    { let runs = evs.iter().filter(|(_, _, e)| matches!(e, Ev::Run(_))).count(); let allowed = sc.run.iter().position(|x| *x == 0 || *x < 0 || *x > 2).map(|p| p + 1).unwrap_or(sc.run.len() + 1); if runs > allowed { v.push(format!("O12 on_run body ran {runs} times, script allows {allowed}")); } }
+    { let runs = evs.iter().filter(|(_, _, e)| matches!(e, Ev::Run(_))).count(); let allowed = sc.run.iter().position(|x| *x == 0 || *x < 0 || *x > 3).map(|p| p + 1).unwrap_or(sc.run.len() + 1); if runs > allowed { v.push(format!("O12 on_run body ran {runs} times, script allows {allowed}")); } }
     let mut trace: Vec<String> = evs.iter().map(|(s, t, e)| format!("{s}@{t}ms {e:?}")).collect();
     trace.extend(recs.iter().map(|r| format!("op#{} {:?} id={} start {}@{}ms end {}@{}ms -> {:?}", r.idx, r.op, r.id, r.s_seq, r.s_t, if r.e_seq == u64::MAX { 0 } else { r.e_seq }, if r.e_t == u64::MAX { 0 } else { r.e_t }, r.res)));
     trace.push(format!("result {result_kind}"));
@@ -267,6 +268,8 @@ fn curated() -> Vec<Scenario> {
         s(2, 0, vec![0], vec![(0, ErasedTell { h: 10 }), (1, Ask { h: 0 }), (2, ErasedKill), (3, Tell { h: 0 })]),
         s(1, 0, vec![0], vec![(0, Tell { h: 5 }), (0, Tell { h: 5 }), (0, Tell { h: 5 }), (1, DropRefs)]),
         s(4, 0, vec![0], vec![(0, Tell { h: 30 }), (5, AskT { h: 0, d: 10 }), (100, Stop)]),
+        s(2, 0, vec![3], vec![(0, Tell { h: 0 }), (5, DropRefs)]),
+        s(2, 0, vec![1, 3], vec![(0, Tell { h: 5 }), (1, Tell { h: 0 }), (2, DropRefs)]),
         s(4, 0, vec![0], vec![(0, Tell { h: 30 }), (5, AskT { h: 0, d: 10 }), (6, Tell { h: 0 }), (20, DropRefs)]),
     ]
 }
@@ -283,7 +286,7 @@ fn random(rng: &mut Rng) -> Scenario {
         let op = match rng.next() % 16 { 0..=3 => Tell { h }, 4..=5 => Ask { h }, 6..=7 => TellT { h, d }, 8..=9 => AskT { h, d }, 10 => Stop, 11 => Kill, 12 => DropRefs, 13 => ErasedTell { h }, 14 => ErasedStop, _ => ErasedKill };
         steps.push(Step { at: t, op });
     }
-    Scenario { cap: rng.pick(&[1usize, 1, 2, 3]), on_stop_ms: rng.pick(&[0u64, 0, 40]), run: rng.pick(&[vec![0i8], vec![0], vec![1, 0], vec![2, 1, 0], vec![1, 9]]), steps }
+    Scenario { cap: rng.pick(&[1usize, 1, 2, 3]), on_stop_ms: rng.pick(&[0u64, 0, 40]), run: rng.pick(&[vec![0i8], vec![0], vec![1, 0], vec![2, 1, 0], vec![1, 9], vec![3], vec![1, 3]]), steps }
 }
 
 pub fn explore(seed: u64, n: usize) -> (usize, Vec<(Scenario, Verdict)>) {
